@@ -10,6 +10,7 @@ import (
 	"fmt"
 	"go/constant"
 	"sort"
+	"strings"
 
 	"golang.org/x/tools/go/ssa"
 )
@@ -97,16 +98,36 @@ func commentsRule(c *Ctx, rule string) {
 	// line comment
 	if f := p.SSAFunc(p.Method("Scanner", "skipUntilNewline")); f != nil {
 		auto, names, why := p.readAutomaton(f, []rune{'\n', 0, 'x', '*', '/', '-'})
-		if auto == nil || len(names) != 1 {
+		if auto == nil || len(names) == 0 {
 			c.Unk(rule, "skipUntilNewline", f.Pos(), "automaton not extracted: "+why)
 		} else {
-			for _, cl := range []rune{'\n', 0, 'x', '*', '/', '-'} {
-				got := fmt.Sprint(auto["R1"][cl])
-				want := "[R1]"
-				if cl == '\n' || cl == 0 {
-					want = "[return]"
+			// the reference has one state: every read site must behave like it
+			// (newline or end of input: return; anything else: keep reading)
+			for i, site := range names {
+				for _, cl := range []rune{'\n', 0, 'x', '*', '/', '-'} {
+					succ := auto[site][cl]
+					key := fmt.Sprintf("skipUntilNewline: on %q", cl)
+					if i > 0 {
+						key = fmt.Sprintf("skipUntilNewline: read site #%d on %q", i+1, cl)
+					}
+					if len(succ) == 0 {
+						c.Unk(rule, key, f.Pos(), "successor not extracted (state kept in variables)")
+						continue
+					}
+					wantReturn := cl == '\n' || cl == 0
+					ok := true
+					for _, to := range succ {
+						isRet := strings.HasPrefix(to, "return")
+						if isRet != wantReturn {
+							ok = false
+						}
+					}
+					want := "another read"
+					if wantReturn {
+						want = "return"
+					}
+					c.Check(ok, rule, key, f.Pos(), fmt.Sprintf("goes to %v, must go to %s: a line comment ends at the first newline or end of input, and only there", succ, want))
 				}
-				c.Check(got == want, rule, fmt.Sprintf("skipUntilNewline: on %q", cl), f.Pos(), fmt.Sprintf("goes to %s, must go to %s", got, want))
 			}
 		}
 	} else {
